@@ -20,5 +20,5 @@ def body(rec, c):
     run_history(rec, PROPERTY, c, NT)
 
 
-CHECKS = [Check("history", body, lambda: {"c": config_case(**KW)}, quick=10, thorough=40, quick_shards=16,
+CHECKS = [Check("history", body, lambda: {"c": config_case(**KW)}, quick=10, thorough=160, quick_shards=16,
                 thorough_shards=16, shrink_quick=False)]
